@@ -328,6 +328,7 @@ pub fn classify(
     after_restart: bool,
     blast: &BTreeSet<i64>,
     in_window: bool,
+    partial_retire: bool,
 ) -> Result<BTreeSet<String>, String> {
     let mut tags = BTreeSet::new();
     let vis = |m: &Model, k: i64| if after_restart { m.visible_after_restart(k) } else { m.visible_now(k) };
@@ -365,6 +366,12 @@ pub fn classify(
             allowed.extend(extra);
             allowed.insert(0);
         }
+        if partial_retire {
+            // a compaction round has committed the batch of one event type and not yet reclaimed
+            // its inputs: after a restart the drained inputs are read again for that type
+            let extra: Vec<usize> = allowed.iter().map(|a| a + 1).collect();
+            allowed.extend(extra);
+        }
         let _ = blast;
         let got = qm.get(&e.k).copied().unwrap_or(0);
         // the selection path drops repeated event ids, so a duplicate may show as 1 here
@@ -376,7 +383,7 @@ pub fn classify(
             tags.insert(if in_window && cands.iter().all(|m| vis(m, e.k) > 0) { "KF-orphan-dir".to_string() } else { "KF-P1-wal-unlinked".to_string() });
         }
         if got > 1 {
-            tags.insert(if in_window { "KF-window-dup".to_string() } else { "KF-stale-wal-dup".to_string() });
+            tags.insert(if in_window { "KF-window-dup".to_string() } else if partial_retire { "KF-partial-retire-dup".to_string() } else { "KF-stale-wal-dup".to_string() });
         }
         *lo.entry(e.typ.clone()).or_insert(0) += allowed.iter().min().copied().unwrap_or(0);
         *hi.entry(e.typ.clone()).or_insert(0) += allowed.iter().max().copied().unwrap_or(0);
@@ -387,7 +394,7 @@ pub fn classify(
             return Err(format!("REPLAY: k={} x{rgot}; model allows {allowed:?}", e.k));
         }
         if rgot > 1 {
-            tags.insert(if in_window { "KF-window-dup".to_string() } else { "KF-stale-wal-dup".to_string() });
+            tags.insert(if in_window { "KF-window-dup".to_string() } else if partial_retire { "KF-partial-retire-dup".to_string() } else { "KF-stale-wal-dup".to_string() });
         }
         if rgot == 0 && !is_inflight {
             tags.insert(if in_window && cands.iter().all(|m| vis(m, e.k) > 0) { "KF-orphan-dir".to_string() } else { "KF-P1-wal-unlinked".to_string() });
@@ -424,7 +431,7 @@ pub fn classify(
         }
         let spec = acked.iter().filter(|e| e.typ == t).count();
         if got > spec + inflight.map_or(0, |e| (e.typ == t) as usize) {
-            tags.insert(if in_window { "KF-window-dup".to_string() } else { "KF-stale-wal-dup".to_string() });
+            tags.insert(if in_window { "KF-window-dup".to_string() } else if partial_retire { "KF-partial-retire-dup".to_string() } else { "KF-stale-wal-dup".to_string() });
         }
         if got < spec {
             tags.insert(if in_window { "KF-orphan-dir".to_string() } else { "KF-P1-wal-unlinked".to_string() });
@@ -467,6 +474,27 @@ pub fn phase_of(res: &JobResult, seq: u64) -> Vec<String> {
         }
     }
     last.into_iter().map(|(s, g)| format!("{s}:{g}")).collect()
+}
+
+/// True when, at FS event `seq`, some shard is inside a compaction round that has already
+/// swapped the index for one batch (one event type) and has not reached the reclaim step.
+pub fn partially_committed_round(res: &JobResult, seq: u64) -> bool {
+    let mut swapped: BTreeMap<usize, bool> = BTreeMap::new();
+    for g in &res.gates {
+        if g.fs_seq > seq {
+            continue;
+        }
+        match g.gate.as_str() {
+            "compact.index_swapped" => {
+                swapped.insert(g.shard, true);
+            }
+            "compact.before_reclaim" => {
+                swapped.insert(g.shard, false);
+            }
+            _ => {}
+        }
+    }
+    swapped.values().any(|b| *b)
 }
 
 /// context -> shard for this shard count: the engine's own routing function
@@ -548,7 +576,7 @@ pub fn run_history(
             drop(st);
             if !d.is_empty() {
                 let st = &states[li][*opi];
-                let (known, violation) = match classify(&o, expect, None, &[&st.pre], false, &BTreeSet::new(), false) {
+                let (known, violation) = match classify(&o, expect, None, &[&st.pre], false, &BTreeSet::new(), false, false) {
                     Ok(t) => (t.into_iter().collect(), None),
                     Err(e) => (vec![], Some(e)),
                 };
@@ -657,7 +685,8 @@ pub fn run_history(
                             // the orphan-directory defect needs an orphan directory in the crash tree
                             let _ = phase;
                             let in_window = !orphan_dirs.is_empty();
-                            match classify(&o, acked, inflight.as_ref(), &cands, true, &st.blast, in_window) {
+                            let partial = partially_committed_round(last, s.seq);
+                            match classify(&o, acked, inflight.as_ref(), &cands, true, &st.blast, in_window, partial) {
                                 Ok(t) => known = t.into_iter().collect(),
                                 Err(e) => violation = Some(e),
                             }
